@@ -1,5 +1,7 @@
-(* Correspondence check for C29.  Two kinds of cases:
-   CReq   one S3 request with hostile key / upload id / copy source / batch keys sent
+(* Correspondence check for C29.  Three kinds of cases:
+   CFix   the store as the harness built it for one of the fixtures (= fx_of id);
+   CReq   one S3 request with hostile bucket / key / upload id / copy source / batch keys /
+          listing prefix and marker sent
           as a RAW request target through the real gateway router; observed: the
           filer-facing calls (gRPC interceptor + HTTP wrapper in front of the filer's
           ServeMux), every FilerStore call (recording store), the status class, whether
@@ -36,35 +38,87 @@ Definition suuid : string := "UUID".
 Definition spdd : string := "%2e%2e".
 Definition sk : string := "k".
 
-(* the fixture every request runs against (the harness builds exactly this) *)
+Definition sbb : string := "bb".
+Definition snb : string := "nb".
+Definition soth : string := "oth".
+Definition se : string := "e".
+Definition sa : string := "a".
+Definition spct2f : string := "%2f".
+Definition spdd2 : string := "%252e%252e".
+
+(* the fixtures a request runs against (the harness builds exactly these and proves it
+   with a CFix case per fixture in every shard: its snapshot of the store) *)
 Definition fx0 : fixture :=
   [ ("/", true);
     ("/buckets", true);
     ("/buckets/b", true);
-    ("/buckets/b/obj", false);
-    ("/buckets/b/x", true);
-    ("/buckets/b/x/y", false);
     ("/buckets/b/.uploads", true);
     ("/buckets/b/.uploads/u1", true);
     ("/buckets/b/.uploads/u1/0001.part", false);
+    ("/buckets/b/obj", false);
+    ("/buckets/b/x", true);
+    ("/buckets/b/x/y", false);
     ("/buckets/other", true);
-    ("/buckets/other/obj", false);
-    ("/buckets/other/keep", false);
     ("/buckets/other/.uploads", true);
     ("/buckets/other/.uploads/u2", true);
     ("/buckets/other/.uploads/u2/0001.part", false);
+    ("/buckets/other/keep", false);
+    ("/buckets/other/obj", false);
     ("/etc", true);
     ("/etc/secret", false) ].
+
+(* the upload id is a file, obj is a directory, x is a file, an empty folder, a bucket
+   whose name extends "b", the other bucket has an upload with the same id *)
+Definition fx1 : fixture :=
+  [ ("/", true);
+    ("/buckets", true);
+    ("/buckets/b", true);
+    ("/buckets/b/.uploads", true);
+    ("/buckets/b/.uploads/u1", false);
+    ("/buckets/b/e", true);
+    ("/buckets/b/obj", true);
+    ("/buckets/b/obj/k", false);
+    ("/buckets/b/x", false);
+    ("/buckets/bb", true);
+    ("/buckets/bb/obj", false);
+    ("/buckets/other", true);
+    ("/buckets/other/.uploads", true);
+    ("/buckets/other/.uploads/u1", true);
+    ("/buckets/other/.uploads/u1/0001.part", false);
+    ("/buckets/other/obj", false);
+    ("/etc", true);
+    ("/etc/secret", false) ].
+
+(* an empty bucket, a bucket named ".uploads", entries of the same names at the root *)
+Definition fx2 : fixture :=
+  [ ("/", true);
+    ("/b", true);
+    ("/b/obj", false);
+    ("/buckets", true);
+    ("/buckets/.uploads", true);
+    ("/buckets/.uploads/u1", true);
+    ("/buckets/.uploads/u1/0001.part", false);
+    ("/buckets/b", true);
+    ("/buckets/other", true);
+    ("/buckets/other/new", false);
+    ("/buckets/other/x", true);
+    ("/buckets/other/x/y", false);
+    ("/obj", false) ].
+
+Definition fx_of (id : N) : fixture :=
+  match id with 0%N => fx0 | 1%N => fx1 | _ => fx2 end.
 
 Inductive sop := SFind | SList | SInsert | SUpdate | SDelete | SDelChildren.
 
 Inductive case :=
-| CReq (q : req)
+| CReq (fxid : N)                         (* the fixture the request ran against: fx_of fxid *)
+       (q : req)
        (i_calls : list fcall)             (* filer-facing calls, in arrival order *)
        (i_store : list (sop * string))    (* FilerStore calls *)
        (i_status : N)                     (* 2,3,4,5 = status class; 9 = handler panic *)
-       (i_outside_changed : bool)         (* an entry outside /buckets/<bucket> changed *)
-       (i_leak : bool)                    (* the response carried another bucket's / the filer's data *)
+       (i_outside_changed : bool)         (* an entry outside /buckets/<bucket> changed (snapshot diff) *)
+       (i_leak : bool)                    (* the response carried the content of a file outside /buckets/<bucket> *)
+| CFix (fxid : N) (snap : fixture)        (* the store as the harness built it for fixture fxid, without "/" *)
 | CClean (p dir name : string)
          (g_clean : string)               (* path.Clean(p) *)
          (g_mux : string)                 (* what the real ServeMux serves / redirects p to *)
@@ -89,17 +143,50 @@ Definition fcall_eqb (a b : fcall) : bool :=
   | _, _ => false
   end.
 
+(* the purge tail: every call is a candidate, and a purge delete is always directly
+   preceded by the lookup of the same (dir, name) (doDeleteEmptyDirectories: exists, then
+   delete) *)
+Fixpoint purge_tail_ok (cand rest : list fcall) (prev : option fcall) : bool :=
+  match rest with
+  | [] => true
+  | c :: rest' =>
+      existsb (fcall_eqb c) cand &&
+      match c with
+      | GDelete d n _ => match prev with Some (GLookup d' n') => (d =? d') && (n =? n') | _ => false end
+      | _ => true
+      end && purge_tail_ok cand rest' (Some c)
+  end.
+
 (* the implementation's calls = the model's calls, followed (batch delete only) by
    purge calls that all belong to the model's candidate set *)
 Fixpoint calls_match (model impl cand : list fcall) : bool :=
   match model, impl with
-  | [], rest => forallb (fun c => existsb (fcall_eqb c) cand) rest
+  | [], rest => purge_tail_ok cand rest None
   | m :: model', i :: impl' => fcall_eqb m i && calls_match model' impl' cand
   | _ :: _, [] => false
   end.
 
-(* the buckets a request may legitimately touch: its own, and the one its copy source names *)
+(* listings: the model's heads occur in this order; every call in between or behind is
+   a candidate (a directory below a head that the fixture really has, or the bucket check) *)
+Fixpoint heads_match (heads impl cand : list fcall) : bool :=
+  match impl with
+  | [] => match heads with [] => true | _ :: _ => false end
+  | c :: impl' =>
+      match heads with
+      | h :: heads' =>
+          if fcall_eqb h c then heads_match heads' impl' cand
+          else existsb (fcall_eqb c) cand && heads_match heads impl' cand
+      | [] => existsb (fcall_eqb c) cand && heads_match [] impl' cand
+      end
+  end.
+
+Definition is_list_route (r : route) : bool := match r with RList _ _ _ _ => true | _ => false end.
+
+(* the buckets a request may legitimately touch: its own, and the one its copy source
+   names; a request whose bucket name is not an ordinary name may touch nothing *)
 Definition allowed (q : req) : list string :=
+  if bad_bucket (q_bucket q) then []
+  else
   q_bucket q ::
   match q_route q with
   | RCopy _ | RCopyPart =>
@@ -121,11 +208,24 @@ Definition store_effective (c : fcall) : option string :=
   | _, r => r
   end.
 
+Definition mutating (o : sop) : bool :=
+  match o with SInsert | SUpdate | SDelete | SDelChildren => true | SFind | SList => false end.
+
+Fixpoint fixture_eqb (a b : fixture) : bool :=
+  match a, b with
+  | [], [] => true
+  | (p, d) :: a', (p', d') :: b' => (p =? p') && Bool.eqb d d' && fixture_eqb a' b'
+  | _, _ => false
+  end.
+
 Definition check (c : case) : outcome :=
   match c with
-  | CReq q i_calls i_store i_status i_changed i_leak =>
-      let m_calls := map snd (calls fx0 q) in
-      let cand := purge_candidates (q_bucket q) (q_keys q) in
+  | CReq fxid q i_calls i_store i_status i_changed i_leak =>
+      let fx := fx_of fxid in
+      let b := q_bucket q in
+      let badb := bad_bucket b in
+      let m_calls := map snd (calls fx q) in
+      let cand := candidates fx q in
       let eff := flat_map (fun c => match c, effective c with
                                     | GCreate _ _ _, Some e => clean e :: map clean (create_parents e)
                                     | _, Some e => [clean e]
@@ -135,7 +235,15 @@ Definition check (c : case) : outcome :=
       let spaths := map (fun sp => clean (snd sp)) i_store in
       let al := allowed q in
       let m_outside := existsb (outside_all al) (flat_map (fun c => match store_effective c with Some e => [e] | None => [] end) i_calls) in
-      let i_outside := existsb (outside_all al) spaths in
+      (* a store path outside every allowed bucket directory; the filer's parent walk of a
+         create (and its path resolution) looks up the ancestors of the bucket directory:
+         a Find of a proper ancestor that no call addresses itself is not an access *)
+      let call_eff := flat_map (fun c => match effective c with Some e => [clean e] | None => [] end) i_calls in
+      let above_bucket := fun p => (p =? "/") || existsb (fun a => negb (p =? clean (bucket_dir a)) && inside p (clean (bucket_dir a))) al in
+      let i_outside := existsb (fun sp => let p := clean (snd sp) in
+                                          outside_all al p &&
+                                          negb (match fst sp with SFind => true | _ => false end &&
+                                                above_bucket p && negb (existsb (String.eqb p) call_eff))) i_store in
       (* an object route addressed the multipart area: a store path inside some
          <bucket>/.uploads that is not merely swept up by a recursive delete that started
          above the area *)
@@ -146,8 +254,21 @@ Definition check (c : case) : outcome :=
                                         end) i_calls in
       let obj_uploads := object_route (q_route q) &&
                          existsb (fun p => in_up p && negb (existsb (fun e => inside e p && negb (in_up e)) del_eff)) spaths in
+      (* the model's view of the same: a call of `calls` in the area (then it must be seen),
+         or a purge candidate in it (then it may be seen) *)
+      let m_up_calls := negb (uploads_hidden fx q) in
+      let m_up_cand := object_route (q_route q) && existsb (fun c => call_in_uploads (b, c)) cand in
+      (* the two observables the harness computes itself, cross-checked against the store
+         log: a change outside the bucket needs a mutating store call outside it, foreign
+         content in the answer needs a read outside it *)
+      let own := fun p => negb badb && contained b p in
+      let chg_explained := negb i_changed || existsb (fun sp => mutating (fst sp) && negb (own (clean (snd sp)))) i_store in
+      let leak_explained := negb i_leak || existsb (fun sp => negb (mutating (fst sp)) && negb (own (clean (snd sp)))) i_store in
+      let need0 := i_outside || i_changed || i_leak in
+      let need1 := obj_uploads in
       {| o_corr :=
-           calls_match m_calls i_calls cand &&
+           (if is_list_route (q_route q) then heads_match m_calls i_calls cand
+            else calls_match m_calls i_calls cand) &&
            (* every store path is explained by a call: it is the call's effective path,
               one of its ancestors (parent lookups / creation) or descendants (recursive delete) *)
            forallb (fun p => existsb (related p) eff) spaths &&
@@ -157,12 +278,23 @@ Definition check (c : case) : outcome :=
                              | None => true
                              end) m_calls &&
            Bool.eqb m_outside i_outside &&
-           Bool.eqb (negb (uploads_hidden fx0 q)) obj_uploads;
+           (badb || Bool.eqb (m_up_calls || (m_up_cand && obj_uploads)) obj_uploads) &&
+           chg_explained && leak_explained;
          o_prop := negb i_outside && negb i_changed && negb i_leak && negb obj_uploads;
-         o_trig := if req_dotdot q then Some 0%N
-                   else if req_uploads_seg q then Some 1%N
-                   else None;
+         (* each failing part must lie in the trigger set of ITS finding: an escape needs a
+            climbing request, a touched upload area needs a walk through ".uploads"; when
+            both fail, both triggers are required and finding 0 is reported *)
+         o_trig := if badb then Some 2%N
+                   else if req_noslash q then Some 3%N
+                   else if (negb need0 || req_climbs q) && (negb need1 || req_enters_uploads q)
+                        then (if need0 then Some 0%N else if need1 then Some 1%N else None)
+                        else None;
          o_nontrivial := (i_status =? 2)%N |}
+  | CFix fxid snap =>
+      {| o_corr := fixture_eqb (tl (fx_of fxid)) snap;
+         o_prop := fx_plain snap;
+         o_trig := None;
+         o_nontrivial := true |}
   | CClean p dir name g_clean g_mux g_join g_dn g_base g_dir =>
       {| o_corr := (clean p =? g_clean) && (mux_clean p =? g_mux) && (join_path dir name =? g_join) &&
                    (fst (dir_and_name p) =? fst g_dn) && (snd (dir_and_name p) =? snd g_dn) &&
